@@ -85,19 +85,9 @@ TEXT_CONFIGS = [
     for w in (40, 80)
 ]
 
-# modes ordered cheap-first inside each pixel-count class; used to rotate by seed
+# low- and high-resolution modes (the property modules sample low:high = 3:1 per case)
 LOWRES = [m.name for m in MODES if m.width * m.height <= 64000]
 HIRES = [m.name for m in MODES if m.width * m.height > 64000]
-
-
-def rotate_modes(seed, shard, n_low, n_high):
-    """Pick a seed-dependent window of low- and high-resolution mode names (deterministic)."""
-    rng = random.Random(seed * 7919 + 13)
-    low = list(LOWRES)
-    high = list(HIRES)
-    rng.shuffle(low)
-    rng.shuffle(high)
-    return low[:n_low] + high[:n_high]
 
 
 # --------------------------------------------------------------------------------------------
@@ -109,12 +99,13 @@ def rotate_modes(seed, shard, n_low, n_high):
 
 def page_rows(page):
     """State read of one VideoBuffer's pixel matrix -> list of bytes rows."""
+    rows = getattr(getattr(page, '_pixels', None), '_rows', None)
+    if rows is not None:
+        # straight from the row buffers: also works when a defect has left rows of unequal length
+        return [bytes(r) for r in rows]
     m = page.pixels[:, :]
-    rows = getattr(m, '_rows', None)
-    if rows is None:
-        data, w = m.to_bytes(), m.width
-        return [data[o:o + w] for o in range(0, len(data), w)]
-    return [bytes(r) for r in rows]
+    data, w = m.to_bytes(), m.width
+    return [data[o:o + w] for o in range(0, len(data), w)]
 
 
 def page_equals(page, snapshot):
@@ -137,6 +128,10 @@ def diff_pixels(a, b, limit=None):
         return out
     for y, (ra, rb) in enumerate(zip(a, b)):
         if ra != rb:
+            if len(ra) != len(rb):
+                # a corrupted pixel matrix (row length changed): report the first excess column
+                out.append((min(len(ra), len(rb)), y))
+                rb = bytes(rb[:len(ra)]).ljust(len(ra), b'\xff')
             for x in range(len(ra)):
                 if ra[x] != rb[x]:
                     out.append((x, y))
@@ -177,7 +172,9 @@ def outside_rect_equal(a, b, rect):
 
 def describe_diff(exp, got, n=4):
     d = diff_pixels(exp, got, limit=n)
-    return ', '.join('(%d,%d) expected %d got %d' % (x, y, exp[y][x], got[y][x]) for x, y in d)
+    return ', '.join('(%d,%d) expected %s got %s' % (
+        x, y, exp[y][x] if x < len(exp[y]) else 'nothing',
+        got[y][x] if x < len(got[y]) else 'nothing') for x, y in d)
 
 
 def noise_rows(seed, width, height, nattr, density=256):
